@@ -91,13 +91,23 @@ Proof.
   apply N.eqb_eq in Hp. subst. split; [split; [assumption|cbn; lia]|reflexivity].
 Qed.
 
+(* a positive look-ahead with a group-free body consumes nothing and sets no group *)
+Lemma look_match d st st1 : no_groups d = true -> Matches (RLook false d) st st1 ->
+  adv [] st st1 /\ caps st1 = caps st.
+Proof.
+  intros N M.
+  inversion M as [? ? ? ? ? Hc| | | | | | | |? ? inner Hin| | |]; subst; [cbn in Hc; discriminate|].
+  pose proof (proj1 no_groups_caps _ _ _ Hin N) as C.
+  unfold with_caps. cbn [caps]. split; [|exact C]. split; [reflexivity|cbn; lia].
+Qed.
+
 (* ---- QUOTE_PATTERN: shape certificate and what a match looks like ---- *)
 Definition quote_parts (r : regex) : option (regex * regex * regex * regex) :=
   match r with
   | RCat (RGroup 1 a)
       (RCat (RAlt (RCat (RLit 34) (RCat (RGroup 2 b) (RLit 34)))
                   (RCat (RLit 39) (RCat (RGroup 3 c) (RLit 39))))
-            (RGroup 4 d)) => Some (a, b, c, d)
+            (RLook false d)) => Some (a, b, c, d)
   | _ => None
   end.
 
@@ -111,7 +121,7 @@ Lemma quote_parts_eq r a b c d : quote_parts r = Some (a, b, c, d) ->
   r = RCat (RGroup 1 a)
         (RCat (RAlt (RCat (RLit 34) (RCat (RGroup 2 b) (RLit 34)))
                     (RCat (RLit 39) (RCat (RGroup 3 c) (RLit 39))))
-              (RGroup 4 d)).
+              (RLook false d)).
 Proof.
   unfold quote_parts.
   repeat match goal with
@@ -121,11 +131,11 @@ Proof.
 Qed.
 
 Lemma quote_match r st0 st1 : quote_shape r = true ->
-  Matches r st0 st1 -> (5 <= length (caps st0))%nat ->
+  Matches r st0 st1 -> (4 <= length (caps st0))%nat ->
   cap_of st0 2%nat = None -> cap_of st0 3%nat = None ->
-  exists g1 q c g4,
-    adv (g1 ++ [q] ++ c ++ [q] ++ g4) st0 st1 /\
-    (exists s, cap_of st1 1%nat = Some (s, g1)) /\ (exists s, cap_of st1 4%nat = Some (s, g4)) /\
+  exists g1 q c,
+    adv (g1 ++ [q] ++ c ++ [q]) st0 st1 /\
+    (exists s, cap_of st1 1%nat = Some (s, g1)) /\
     ((q = dquote /\ (exists s, cap_of st1 2%nat = Some (s, c))) \/
      (q = apos /\ cap_of st1 2%nat = None /\ (exists s, cap_of st1 3%nat = Some (s, c)))).
 Proof.
@@ -136,7 +146,7 @@ Proof.
   inversion M as [| |? ? ? sA ? MA MX| | | | | | | | |]; subst; [cbn in *; discriminate|].
   destruct (group_capture _ _ _ _ Na MA ltac:(lia)) as [g1 [A1 [K1 [O1 L1]]]].
   inversion MX as [| |? ? ? sB ? MAlt MD| | | | | | | | |]; subst; [cbn in *; discriminate|].
-  assert (LB : forall sB', length (caps sB') = length (caps sA) -> (4 < length (caps sB'))%nat) by (intros; lia).
+  destruct (look_match _ _ _ Nd MD) as [Ad Cd].
   inversion MAlt as [| | |? ? ? ? ML|? ? ? ? MR| | | | | | |]; subst; [cbn in *; discriminate| |].
   - (* double quotes *)
     inversion ML as [| |? ? ? s1 ? Mq1 Mrest| | | | | | | | |]; subst; [cbn in *; discriminate|].
@@ -145,15 +155,13 @@ Proof.
     assert (L2 : (2 < length (caps s1))%nat) by (rewrite Cq1; lia).
     destruct (group_capture _ _ _ _ Nb Mb L2) as [cc [Ab [Kb [Ob Lb]]]].
     destruct (lit_match _ _ _ Mq2) as [Aq2 Cq2].
-    assert (L4 : (4 < length (caps sB))%nat) by (rewrite Cq2, Lb, Cq1; lia).
-    destruct (group_capture _ _ _ _ Nd MD L4) as [g4 [Ad [Kd [Od Ld]]]].
-    exists g1, dquote, cc, g4. split; [|split; [|split]].
-    + eapply adv_trans; [exact A1|]. eapply adv_trans; [exact Aq1|]. eapply adv_trans; [exact Ab|].
+    exists g1, dquote, cc. split; [|split].
+    + replace (g1 ++ [dquote] ++ cc ++ [dquote]) with (g1 ++ [dquote] ++ cc ++ [dquote] ++ []) by now rewrite app_nil_r.
+      eapply adv_trans; [exact A1|]. eapply adv_trans; [exact Aq1|]. eapply adv_trans; [exact Ab|].
       eapply adv_trans; [exact Aq2|exact Ad].
-    + exists (pos st0). rewrite Od by lia. unfold cap_of. rewrite Cq2. fold (cap_of s2 1).
+    + exists (pos st0). unfold cap_of. rewrite Cd, Cq2. fold (cap_of s2 1).
       rewrite Ob by lia. unfold cap_of. rewrite Cq1. exact K1.
-    + eexists. exact Kd.
-    + left. split; [reflexivity|]. exists (pos s1). rewrite Od by lia. unfold cap_of. rewrite Cq2. exact Kb.
+    + left. split; [reflexivity|]. exists (pos s1). unfold cap_of. rewrite Cd, Cq2. exact Kb.
   - (* single quotes *)
     inversion MR as [| |? ? ? s1 ? Mq1 Mrest| | | | | | | | |]; subst; [cbn in *; discriminate|].
     destruct (lit_match _ _ _ Mq1) as [Aq1 Cq1].
@@ -161,18 +169,16 @@ Proof.
     assert (L3 : (3 < length (caps s1))%nat) by (rewrite Cq1; lia).
     destruct (group_capture _ _ _ _ Nc Mb L3) as [cc [Ab [Kb [Ob Lb]]]].
     destruct (lit_match _ _ _ Mq2) as [Aq2 Cq2].
-    assert (L4 : (4 < length (caps sB))%nat) by (rewrite Cq2, Lb, Cq1; lia).
-    destruct (group_capture _ _ _ _ Nd MD L4) as [g4 [Ad [Kd [Od Ld]]]].
-    exists g1, apos, cc, g4. split; [|split; [|split]].
-    + eapply adv_trans; [exact A1|]. eapply adv_trans; [exact Aq1|]. eapply adv_trans; [exact Ab|].
+    exists g1, apos, cc. split; [|split].
+    + replace (g1 ++ [apos] ++ cc ++ [apos]) with (g1 ++ [apos] ++ cc ++ [apos] ++ []) by now rewrite app_nil_r.
+      eapply adv_trans; [exact A1|]. eapply adv_trans; [exact Aq1|]. eapply adv_trans; [exact Ab|].
       eapply adv_trans; [exact Aq2|exact Ad].
-    + exists (pos st0). rewrite Od by lia. unfold cap_of. rewrite Cq2. fold (cap_of s2 1).
+    + exists (pos st0). unfold cap_of. rewrite Cd, Cq2. fold (cap_of s2 1).
       rewrite Ob by lia. unfold cap_of. rewrite Cq1. exact K1.
-    + eexists. exact Kd.
     + right. split; [reflexivity|]. split.
-      * rewrite Od by lia. unfold cap_of. rewrite Cq2. fold (cap_of s2 2). rewrite Ob by lia.
+      * unfold cap_of. rewrite Cd, Cq2. fold (cap_of s2 2). rewrite Ob by lia.
         unfold cap_of. rewrite Cq1. fold (cap_of sA 2). rewrite O1 by lia. exact C2.
-      * exists (pos s1). rewrite Od by lia. unfold cap_of. rewrite Cq2. exact Kb.
+      * exists (pos s1). unfold cap_of. rewrite Cd, Cq2. exact Kb.
 Qed.
 
 (* ---- generic lifting through mapM / re_subM ---- *)
@@ -210,37 +216,37 @@ Proof. intros H. unfold group, mk_match, cap_of. cbn. destruct i; [lia|reflexivi
 Lemma cap_of_repeat_none n i : nth i (repeat (@None (nat * str)) n) None = None.
 Proof. revert i; induction n; intros [|i]; cbn; auto. Qed.
 
-Lemma pw_quoted g1 c g4 q l r : qrel q l = true -> qrel q r = true ->
-  pw (g1 ++ [q] ++ c ++ [q] ++ g4) (g1 ++ [l] ++ c ++ [r] ++ g4).
+Lemma pw_quoted g1 c q l r : qrel q l = true -> qrel q r = true ->
+  pw (g1 ++ [q] ++ c ++ [q]) (g1 ++ [l] ++ c ++ [r]).
 Proof.
   intros Hl Hr. apply pw_app; [apply pw_refl|]. apply pw_app; [repeat constructor; assumption|].
-  apply pw_app; [apply pw_refl|]. apply pw_app; [repeat constructor; assumption|apply pw_refl].
+  apply pw_app; [apply pw_refl|]. repeat constructor; assumption.
 Qed.
 
 Lemma replace_quotes_pw st0 st1 r :
-  quote_shape (p_re re_quote) = true -> (5 <= p_ngroups re_quote)%nat ->
+  quote_shape (p_re re_quote) = true -> (4 <= p_ngroups re_quote)%nat ->
   Matches (p_re re_quote) (with_caps st0 (repeat None (p_ngroups re_quote))) st1 ->
   replace_quotes (mk_match st0 st1) = inl r -> pw (m_text (mk_match st0 st1)) r.
 Proof.
   intros S N5 MM H.
-  destruct (quote_match _ _ _ S MM) as [g1 [q [c [g4 [A [[s1 K1] [[s4 K4] K23]]]]]]].
+  destruct (quote_match _ _ _ S MM) as [g1 [q [c [A [[s1 K1] K23]]]]].
   - unfold with_caps. cbn [caps]. now rewrite repeat_length.
   - unfold cap_of, with_caps. cbn [caps]. apply cap_of_repeat_none.
   - unfold cap_of, with_caps. cbn [caps]. apply cap_of_repeat_none.
-  - assert (A' : adv (g1 ++ [q] ++ c ++ [q] ++ g4) st0 st1) by (destruct A as [A1 A2]; split; assumption).
+  - assert (A' : adv (g1 ++ [q] ++ c ++ [q]) st0 st1) by (destruct A as [A1 A2]; split; assumption).
     destruct (mk_match_text _ _ _ A') as [T _].
     unfold replace_quotes in H.
-    rewrite !mk_match_group in H by lia. rewrite K1, K4 in H.
+    rewrite !mk_match_group in H by lia. rewrite K1 in H.
     rewrite T.
     destruct K23 as [[-> [s2 K2]]|[-> [K2 [s3 K3]]]].
     + rewrite K2 in H.
       destruct (is_multi_paragraph c).
       * injection H as <-. cbn [m_text mk_match]. rewrite <- (adv_text _ _ _ A'). apply pw_refl.
-      * injection H as <-. apply (pw_quoted g1 c g4 dquote ldq rdq); reflexivity.
+      * injection H as <-. apply (pw_quoted g1 c dquote ldq rdq); reflexivity.
     + rewrite K2, K3 in H.
       destruct (is_multi_paragraph c).
       * injection H as <-. cbn [m_text mk_match]. rewrite <- (adv_text _ _ _ A'). apply pw_refl.
-      * injection H as <-. apply (pw_quoted g1 c g4 apos lsq rsq); reflexivity.
+      * injection H as <-. apply (pw_quoted g1 c apos lsq rsq); reflexivity.
 Qed.
 
 (* ---- re.split(r"(\s+)", ...): the pieces concatenate back ---- *)
@@ -291,7 +297,7 @@ Qed.
 
 (* ---- the certificates over the generated patterns ---- *)
 Definition typo_cert : bool :=
-  quote_shape (p_re re_quote) && Nat.leb 5 (p_ngroups re_quote) && whole_group_shape re_sq_split.
+  quote_shape (p_re re_quote) && Nat.leb 4 (p_ngroups re_quote) && whole_group_shape re_sq_split.
 
 Theorem apply_smart_quotes_pw text out : typo_cert = true ->
   apply_smart_quotes_to_text text = inl out -> pw text out.
@@ -372,16 +378,16 @@ Lemma FoundAll_Forall p l : FoundAll p l ->
 Proof. induction 1; constructor; [exists st0, st1; auto|assumption]. Qed.
 
 Lemma replace_quotes_total st0 st1 :
-  quote_shape (p_re re_quote) = true -> (5 <= p_ngroups re_quote)%nat ->
+  quote_shape (p_re re_quote) = true -> (4 <= p_ngroups re_quote)%nat ->
   Matches (p_re re_quote) (with_caps st0 (repeat None (p_ngroups re_quote))) st1 ->
   exists r, replace_quotes (mk_match st0 st1) = inl r.
 Proof.
   intros S N5 MM.
-  destruct (quote_match _ _ _ S MM) as [g1 [q [c [g4 [A [[s1 K1] [[s4 K4] K23]]]]]]].
+  destruct (quote_match _ _ _ S MM) as [g1 [q [c [A [[s1 K1] K23]]]]].
   - unfold with_caps. cbn [caps]. now rewrite repeat_length.
   - unfold cap_of, with_caps. cbn [caps]. apply cap_of_repeat_none.
   - unfold cap_of, with_caps. cbn [caps]. apply cap_of_repeat_none.
-  - unfold replace_quotes. rewrite !mk_match_group by lia. rewrite K1, K4.
+  - unfold replace_quotes. rewrite !mk_match_group by lia. rewrite K1.
     destruct K23 as [[-> [s2 K2]]|[-> [K2 [s3 K3]]]].
     + rewrite K2. destruct (is_multi_paragraph c); eexists; reflexivity.
     + rewrite K2, K3. destruct (is_multi_paragraph c); eexists; reflexivity.
